@@ -6,7 +6,7 @@ from ..valgen import Gen, copy_value, twin_all
 from ..condgen import CondGen
 from ..rulegen import RuleGen
 from ..ruleterms import RuleT, obs_rule_test
-from ..pathterms import PathT
+from ..pathterms import PathT, Prim
 from ..terms import Leaf, Bin, Null
 from . import c05
 
@@ -39,6 +39,35 @@ def substitute(cond, doc):
         return None
 
 
+def type_sensitive_rule(g, rg, doc):
+    """A rule whose verdict depends on the TYPE of what its path argument selects (the data type of a number, a range bound):
+    a number in the document is referred to by a concrete path."""
+    nums = []
+
+    def walk(v, path):
+        if isinstance(v, (bool, int, float)) and v == v and abs(v) < 2 ** 40:
+            nums.append((path, v))
+        elif isinstance(v, (list, dict)) and len(path) < 3:
+            for k, x in (enumerate(v) if isinstance(v, list) else v.items()):
+                if isinstance(k, (str, int)) and not isinstance(k, bool):
+                    walk(x, path + (k,))
+    walk(doc, ())
+    if not nums:
+        return None
+    path, val = g.r.choice(nums)
+    base = rg.rule(doc, cast_p=0.0)
+    k = g.r.random()
+    if k < 0.5:
+        cond = Leaf("ValueDataType", g.r.choice(["equal_to", "not_equal_to"]), [PathT([Prim(x) for x in path], ["dtype"])])
+    elif k < 0.8:
+        cond = Leaf("Value", g.r.choice(["in_range", "not_in_range"]), [], {"lower": PathT([Prim(x) for x in path]), "upper": int(val) + g.r.randint(1, 5)})
+    else:
+        cond = Leaf("Value", "equal_to", [PathT([Prim(x) for x in path], ["dtype"])])
+    if g.r.random() < 0.3:
+        cond = Bin(g.r.choice(["and", "or"]), cond, base.cond)
+    return RuleT(base.path, cond, [])
+
+
 def run(tier, seed, model_ok, spec_ok, replay=None):
     g = Gen(seed)
     rg = RuleGen(CondGen(g))
@@ -47,6 +76,8 @@ def run(tier, seed, model_ok, spec_ok, replay=None):
     for _ in range(n):
         doc = g.document(4, 4)
         rt = rg.rule(doc, cast_p=0.0, path_args_p=1.0)
+        if g.r.random() < 0.15:
+            rt = type_sensitive_rule(g, rg, doc) or rt
         try:
             c = c05.make_case(rt, doc)
         except E.Unencodable:
@@ -64,7 +95,7 @@ def run(tier, seed, model_ok, spec_ok, replay=None):
 
             def reused():
                 r = rt.build()
-                for d0 in (g.document(2, 3), twin_all(g, doc)):
+                for d0 in (g.document(2, 3), twin_all(g, doc, force=True)):
                     try:
                         r.test(d0)
                     except Exception:
